@@ -401,6 +401,10 @@ func runHistory(c *vf.Ctx, dir string, i int) (res result) {
 				return
 			}
 			if err := target.WaitReady(90 * time.Second); err != nil {
+				if err == procnode.ErrPortInUse {
+					res.Inconcl = "port in use"
+					return
+				}
 				res.Problem = fmt.Sprintf("%s: node does not come back: %v", o, err)
 				res.Key = "restart-failed"
 				res.LogTail = tailFile(target.LogPath, 2500)
@@ -424,6 +428,10 @@ func runHistory(c *vf.Ctx, dir string, i int) (res result) {
 			}
 			nodes = append(nodes, nd)
 			if err := nd.WaitReady(90 * time.Second); err != nil {
+				if err == procnode.ErrPortInUse {
+					res.Inconcl = "port in use"
+					return
+				}
 				res.Problem = fmt.Sprintf("%s: joining node does not become ready: %v", o, err)
 				res.Key = "late-join-failed"
 				res.LogTail = tailFile(nd.LogPath, 2500)
